@@ -154,7 +154,10 @@ pub fn generate(_ctx: &mut Ctx, seed: u64, i: usize, kind: &str, always_malforme
     let pre = rng.below(3);
     for k in 0..pre { src += &format!("{}filler {k}{}\n", lang.open, lang.close); }
     if let Some(ok) = &healthy_lua {
-        for k in 0..1 + rng.below(2) {
+        // usually one or two healthy scripted blocks; one case in six has 20-40 of them (more than any pool of worker
+        // threads or in-flight limit): the malformed block's error must still surface
+        let many = 1 + rng.below(2);
+        for k in 0..many {
             src += &format!("{}<block name=\"healthy{k}\" check-lua=\"{ok}\">{}\nfine\n{}</block>{}\n", lang.open, lang.close, lang.open, lang.close);
         }
     }
@@ -234,6 +237,14 @@ pub fn generate(_ctx: &mut Ctx, seed: u64, i: usize, kind: &str, always_malforme
         enabled = vec![];
     }
     if with_async { enabled = vec![]; }
+    // one check-lua case in six: 20-40 more healthy scripted blocks AFTER the malformed one (more than any pool of worker
+    // threads or in-flight limit; the malformed block's task is among the first to be spawned and to finish): its error
+    // must still surface
+    if let (Some(ok), "check-lua", true) = (&healthy_lua, kind, rng.chance(1, 6)) {
+        for k in 0..20 + rng.below(21) {
+            src += &format!("{}<block name=\"late{k}\" check-lua=\"{ok}\">{}\nfine\n{}</block>{}\n", lang.open, lang.close, lang.open, lang.close);
+        }
+    }
     let path = format!("f.{}", lang.ext);
     let changes = if all_changed {
         Some([(path.clone(), (1..=src.lines().count() + 1).map(|l| (l, None)).collect())].into_iter().collect())
